@@ -288,7 +288,7 @@ REGISTRY = {
     'C10': {
         'theorems': ['PP.Limits.limits_tokens', 'PP.Limits.limit_that_does_not_bite', 'PP.Limits.shown_canon', 'PP.Tok.shown_ok', 'PP.Tok.wf_shown', 'PP.C03.output_tokens',
                      'PP.C04.sound_pformat', 'PP.C10.truncation_text', 'PP.C10.no_limit', 'PP.C10.large_limit', 'PP.C10.output_reads_back',
-                     'PP.C10.shown_list_truncated', 'PP.C10.shown_list_full', 'PP.Tok.inRd_shown', 'PP.Tok.canon_reads'],
+                     'PP.C10.shown_list_truncated', 'PP.C10.shown_list_full', 'PP.Tok.inRd_shown', 'PP.Tok.canon_reads', 'PP.Limits.output_reads_back'],
         'modules': VALUE_MODULES + ['PP.Props.Values', 'PP.Spec.Tokens', 'PP.Proofs.Toks', 'PP.Proofs.ToksStr', 'PP.Proofs.ToksComb', 'PP.Proofs.ToksVal', 'PP.Proofs.Shown', 'PP.Proofs.NoBite', 'PP.Props.C03', 'PP.Props.Limits', 'PP.Props.NoLimit', 'PP.Props.C04', 'PP.Spec.Reader', 'PP.Proofs.ReaderRT', 'PP.Proofs.ShownRd', 'PP.Props.C10b'],
         'sections': [{'name': 'truncation', 'run': values_sec('truncation_section')},
                      {'name': 'tokens', 'run': values_sec('tokens_section', limits=True)},
@@ -299,10 +299,12 @@ REGISTRY = {
     },
     'C11': {
         'theorems': ['PP.Limits.limits_tokens', 'PP.Limits.limit_that_does_not_bite', 'PP.Limits.shown_canon', 'PP.Tok.shown_ok', 'PP.Tok.wf_shown', 'PP.C03.output_tokens',
-                     'PP.C04.sound_pformat', 'PP.C11.depth_zero_placeholder', 'PP.C11.unlimited_never_zero'],
-        'modules': VALUE_MODULES + ['PP.Props.Values', 'PP.Spec.Tokens', 'PP.Proofs.Toks', 'PP.Proofs.ToksStr', 'PP.Proofs.ToksComb', 'PP.Proofs.ToksVal', 'PP.Proofs.Shown', 'PP.Proofs.NoBite', 'PP.Props.C03', 'PP.Props.Limits', 'PP.Props.NoLimit', 'PP.Props.C04'],
+                     'PP.C04.sound_pformat', 'PP.C11.depth_zero_placeholder', 'PP.C11.unlimited_never_zero', 'PP.C11.output_reads_back', 'PP.Limits.output_reads_back',
+                     'PP.C11.cut_list_denotes', 'PP.C11.cut_tuple_denotes', 'PP.C11.cut_int_denotes', 'PP.Tok.inRd_shown', 'PP.Tok.identPh_read', 'PP.Tok.canon_reads'],
+        'modules': VALUE_MODULES + ['PP.Props.Values', 'PP.Spec.Tokens', 'PP.Proofs.Toks', 'PP.Proofs.ToksStr', 'PP.Proofs.ToksComb', 'PP.Proofs.ToksVal', 'PP.Proofs.Shown', 'PP.Proofs.NoBite', 'PP.Props.C03', 'PP.Props.Limits', 'PP.Props.NoLimit', 'PP.Props.C04', 'PP.Spec.Reader', 'PP.Proofs.ReaderRT', 'PP.Proofs.ShownRd', 'PP.Props.C10b'],
         'sections': [{'name': 'depth', 'run': values_sec('depth_section')},
                      {'name': 'tokens', 'run': values_sec('tokens_section', limits=True)},
+                     {'name': 'reader', 'run': values_sec('reader_section', mode='c11')},
                      {'name': 'mix', 'run': values_sec('mix_section')}],
         'trusted': VALUE_TRUSTED,
         'rule': 'container trees with unique leaves x depth in {0..height+2, None}',
